@@ -47,24 +47,50 @@ pub fn start_server(server_bin: &str, sc: &Value, workdir: &str) -> Result<Serve
     for k in ["num_workers", "batch_size", "fault_percentage", "status_interval"] { if let Some(v) = sc[k].as_u64() { kv.push((k.to_string(), v.to_string())); } }
     if let Some(p) = hc_port { kv.push(("health_check_port".into(), p.to_string())); }
     if sc["client_stats"].as_bool().unwrap_or(false) { kv.push(("client_stats".into(), "on".into())); kv.push(("persistence_directory".into(), format!("{}/persist", dir))); }
-    let mut cmd = Command::new(server_bin);
     let source = sc["source"].as_str().unwrap_or("file");
-    if example {
-        cmd.arg(sc["example_path"].as_str().unwrap_or("/repo/example.cfg"));
-    } else if source == "env" {
-        cmd.arg("ENV");
-        for (k, v) in &kv { cmd.env(format!("ROUGHENOUGH_{}", k.to_uppercase()), v); }
-    } else {
+    if !example && source != "env" {
         let path = format!("{}/server.yaml", dir);
         let text: String = kv.iter().map(|(k, v)| format!("{}: {}\n", k, v)).collect();
         std::fs::write(&path, text).map_err(|e| e.to_string())?;
-        cmd.arg(path);
     }
-    let stderr = std::fs::File::create(format!("{}/stderr.txt", dir)).map_err(|e| e.to_string())?;
-    let stdout = std::fs::File::create(format!("{}/stdout.txt", dir)).map_err(|e| e.to_string())?;
-    cmd.env("ROUGHENOUGH_VERIF_TRACE", format!("{}/trace", dir)).env("RUST_BACKTRACE", "0").stdin(Stdio::null()).stdout(stdout).stderr(stderr);
-    // schedule exploration: sleep after named hook events ("r_received:1300,w_lock:50")
-    if let Some(d) = sc["delays"].as_str() { cmd.env("ROUGHENOUGH_VERIF_DELAY", d); }
+    let make_cmd = |life: &str| -> Result<Command, String> {
+        let mut cmd = Command::new(server_bin);
+        if example {
+            cmd.arg(sc["example_path"].as_str().unwrap_or("/repo/example.cfg"));
+        } else if source == "env" {
+            cmd.arg("ENV");
+            for (k, v) in &kv { cmd.env(format!("ROUGHENOUGH_{}", k.to_uppercase()), v); }
+        } else {
+            cmd.arg(format!("{}/server.yaml", dir));
+        }
+        let stderr = std::fs::File::create(format!("{}/{}stderr.txt", dir, life)).map_err(|e| e.to_string())?;
+        let stdout = std::fs::File::create(format!("{}/{}stdout.txt", dir, life)).map_err(|e| e.to_string())?;
+        cmd.env("ROUGHENOUGH_VERIF_TRACE", format!("{}/trace", dir)).env("RUST_BACKTRACE", "0").stdin(Stdio::null()).stdout(stdout).stderr(stderr);
+        // schedule exploration: sleep after named hook events ("r_received:1300,w_lock:50")
+        if let Some(d) = sc["delays"].as_str() { cmd.env("ROUGHENOUGH_VERIF_DELAY", d); }
+        Ok(cmd)
+    };
+    // earlier lives of the same installation: the server was started with this very configuration and these directories
+    // before (and stopped with SIGTERM); whatever a start leaves behind must not keep the next one from serving
+    for life in 0..sc["previous_runs"].as_u64().unwrap_or(0) {
+        let mut prev = make_cmd(&format!("prev{}_", life))?.spawn().map_err(|e| format!("spawn server: {}", e))?;
+        let t0 = Instant::now();
+        while t0.elapsed() < Duration::from_millis(4000) {
+            let up = std::fs::read_dir(format!("{}/trace", dir)).map(|rd| rd.flatten().any(|e| std::fs::read_to_string(e.path()).map(|t| t.contains("w_unlock")).unwrap_or(false))).unwrap_or(false);
+            if up || matches!(prev.try_wait(), Ok(Some(_))) { break; }
+            std::thread::sleep(Duration::from_millis(20));
+        }
+        std::thread::sleep(Duration::from_millis(150));
+        unsafe { libc::kill(prev.id() as i32, libc::SIGTERM); }
+        let t1 = Instant::now();
+        while t1.elapsed() < Duration::from_millis(6000) { if matches!(prev.try_wait(), Ok(Some(_))) { break; } std::thread::sleep(Duration::from_millis(20)); }
+        let _ = prev.kill();
+        let _ = prev.wait();
+        // the hook trace of the life under observation starts empty
+        let _ = std::fs::remove_dir_all(format!("{}/trace", dir));
+        std::fs::create_dir_all(format!("{}/trace", dir)).map_err(|e| e.to_string())?;
+    }
+    let mut cmd = make_cmd("")?;
     let child = cmd.spawn().map_err(|e| format!("spawn server: {}", e))?;
     let n_workers = sc["num_workers"].as_u64().map(|n| n as usize).unwrap_or_else(|| std::thread::available_parallelism().map(|n| n.get()).unwrap_or(1));
     Ok(ServerProc { child, port, hc_port, dir, n_workers, started: Instant::now(), seed: unhex(&seed_hex) })
@@ -223,13 +249,20 @@ pub fn closed_loop(port: u16, clients: usize, requests: usize, seed: u64, srv: V
     handles.into_iter().flat_map(|h| h.join().unwrap_or_default()).collect()
 }
 
-pub fn flood(port: u16, senders: usize, stop: Arc<AtomicBool>) -> Vec<std::thread::JoinHandle<u64>> {
+/// `kind`: "valid" (requests the server answers), "junk" (only datagrams it refuses: random bytes, and well-formed
+/// 1024-byte messages whose nonce has the wrong length), "mixed"
+pub fn flood(port: u16, senders: usize, kind: &str, stop: Arc<AtomicBool>) -> Vec<std::thread::JoinHandle<u64>> {
     (0..senders).map(|k| {
         let stop = stop.clone();
+        let kind = kind.to_string();
         std::thread::spawn(move || {
             let mut rng = Rng::new(77 + k as u64);
             let s = UdpSocket::bind("127.0.0.1:0").unwrap();
-            let rq = new_request(&mut rng, k as u64, None);
+            let rq = match (kind.as_str(), k % 3) {
+                ("junk", 0) | ("mixed", 1) => rng.bytes(1024),
+                ("junk", 1) | ("mixed", 2) => proto::build_request(Proto::Google, &rng.bytes(16), 1024, &[], None),
+                ("junk", _) => proto::build_request(Proto::Ietf, &rng.bytes(64), 1024, &[proto::VER_DRAFT13], None),
+                _ => new_request(&mut rng, k as u64, None) };
             let mut n = 0u64;
             while !stop.load(Ordering::Relaxed) { if s.send_to(&rq, ("127.0.0.1", port)).is_ok() { n += 1; } }
             n
@@ -439,7 +472,7 @@ pub fn run_scenarios(path: &str, out_prefix: &str, server_bin: &str, workdir: &s
         }
         if let Some(sg) = sc.get("signal").filter(|s| s.is_object()) {
             let mode = sg["mode"].as_str().unwrap_or("idle");
-            if mode == "flood" { flood_handles = flood(sp.port, sg["senders"].as_u64().unwrap_or(3) as usize, flood_stop.clone()); }
+            if mode == "flood" { flood_handles = flood(sp.port, sg["senders"].as_u64().unwrap_or(3) as usize, sg["flood_kind"].as_str().unwrap_or("valid"), flood_stop.clone()); }
             let delay = sg["delay_ms"].as_u64().unwrap_or(100);
             if mode == "load_quiet" {
                 // adversarial timing: signal at the moment the server stops answering the closed-loop clients
